@@ -73,15 +73,46 @@ def seedOk (seed : Option (Nat × Nat)) (dir : XDir) (aln : Aln) : Bool :=
      | .upstream => aln.getLast? == some (.both si sj)
      | .downstream => aln.head? == some (.both si sj))
 
+/-! ## The abutting-allowed affine semi-global optimum (class `affAbutFree`) -/
+
+/-- Three-state recursion like C08's `affRec .semi`, plus the transitions between the two gap states where one of the
+two gaps is a FREE terminal gap (leading: out of row 0 / column 0; trailing: inside the last row / column) — what
+`align_banded`'s table explores, because it starts every border cell in the match state and may stop in the last
+row / column in any state.  `none` = −∞. -/
+def abutRec (M : Mat) (go ge : Int) (a b : Seq) : Rec AffCell where
+  border := (affRec .semi M go ge a b).border
+  cell := fun i j d l t =>
+    let s := sub M a b i j
+    let mS := omax (oadd d.m s) (omax (oadd d.g1 s) (oadd d.g2 s))
+    let freeL : Bool := i + 1 == a.length
+    let freeT : Bool := j + 1 == b.length
+    let g1S := omax (omax (oadd l.m (if freeL then 0 else go)) (oadd l.g1 (if freeL then 0 else ge)))
+                 (if freeL then oadd l.g2 0 else if j = 0 then oadd l.g2 go else none)
+    let g2S := omax (omax (oadd t.m (if freeT then 0 else go)) (oadd t.g2 (if freeT then 0 else ge)))
+                 (if freeT then oadd t.g1 0 else if i = 0 then oadd t.g1 go else none)
+    ⟨mS, g1S, g2S⟩
+
+/-- the optimum over end-to-end alignments in which a gap may abut a gap of the other sequence only if one of the
+two is a free terminal gap (specification, by recursion) -/
+def optAffAbutFree (M : Mat) (go ge : Int) (a b : Seq) : Int :=
+  (((abutRec M go ge a b).val a.length b.length).best).getD 0
+
+/-- the same, read off the table filled row by row (executable) -/
+def optAffAbutFreeT (M : Mat) (go ge : Int) (a b : Seq) : Int :=
+  match ((abutRec M go ge a b).row b.length a.length).getLast? with
+  | some c => c.best.getD 0
+  | none => 0
+
 /-- the reported score against the optimum of the class the (completed) alignment belongs to (`optClass`):
 linear penalty -> `opt mode`; affine, no gap abuts a gap (free terminal gaps included) -> `optAff mode` (C08's class);
-affine semi-global, an interior gap run abuts a free terminal gap -> the semi-global optimum with the linear penalty
-`max go ge` (a proved bound on the abutting-allowed optimum; the exact one is checked by the enumeration oracle) -/
+affine semi-global, an interior gap run abuts a free terminal gap -> `optAffAbutFree` (three-state recursion with the
+free-border transitions; `optAff .semi ≤ optAffAbutFree ≤ optSemi M (max go ge)` is proved, its agreement with an
+independent enumeration/recursion is checked on every case by the `abf` op) -/
 def optOk (a b : Seq) (M : Mat) (gap : Gap) (mode : Mode) (aln : Aln) (sc : Int) : Bool :=
   match mode, gap with
   | .semi, .aff go ge =>
     if noAbutB (complete a b aln) then decide (sc ≤ optT .semi (.aff go ge) M a b)
-    else decide (sc ≤ optT .semi (.lin (max go ge)) M a b)
+    else decide (sc ≤ optAffAbutFreeT M go ge a b)
   | mode, gap => decide (sc ≤ optT mode gap M a b)
 
 /-- linear semi-global: also the positional form of the score; affine: no gap abuts a gap inside the trace -/
@@ -214,7 +245,32 @@ def bandedAffRec (loc : Bool) (M : Mat) (go ge : Int) (a b : Seq) (lo hi : Int) 
 /-- `neg_inf = iinfo(int32).min - min(gap) - min(min_score, 0)` -/
 def negInfOf (go ge minScore : Int) : Int := -2147483648 - min go ge - min minScore 0
 
-def bandedAffScoreSetup (loc : Bool) (go ge minScore : Int) (s : BandSetup) : Int :=
+/-- the same table with `none` for −∞ (no sentinel arithmetic): what the code computes whenever the sentinel cannot
+underflow (`underflowRisk = false`) -/
+def bandedAffRecO (loc : Bool) (M : Mat) (go ge : Int) (a b : Seq) (lo hi : Int) : Rec AffCell where
+  border := fun i j => if inBand lo hi i j then ⟨some 0, none, none⟩ else ⟨none, none, none⟩
+  cell := fun i j d l t =>
+    if inBand lo hi (i + 1) (j + 1) then
+      let s := sub M a b i j
+      let mS := omax (oadd d.m s) (omax (oadd d.g1 s) (oadd d.g2 s))
+      let g1S := omax (oadd l.m go) (oadd l.g1 ge)
+      let g2S := omax (oadd t.m go) (oadd t.g2 ge)
+      if loc then ⟨if opos mS then mS else some 0, if opos g1S then g1S else none, if opos g2S then g2S else none⟩
+      else ⟨mS, g1S, g2S⟩
+    else ⟨none, none, none⟩
+
+/-- `neg_inf + max(open, ext) + ext` falls below `INT32_MIN` (the known finding) -/
+def underflowRisk (go ge minScore : Int) : Bool := decide (max go ge + ge < min go ge + min minScore 0)
+
+def bandedAffScoreSetupO (loc : Bool) (go ge : Int) (s : BandSetup) : Int :=
+  let t := (bandedAffRecO loc s.M go ge s.a s.b s.lower s.upper).table s.b.length s.a.length
+  if loc then
+    listMax 0 (t.flatten.filterMap (·.m))
+  else
+    ((omaxList ((startCells s.a.length s.b.length s.lower s.upper).map fun p =>
+      ((tableGet t p.1 p.2).map (·.best)).bind id))).getD 0
+
+def bandedAffScoreSetupW (loc : Bool) (go ge minScore : Int) (s : BandSetup) : Int :=
   let ninf := negInfOf go ge minScore
   let t := (bandedAffRec loc s.M go ge s.a s.b s.lower s.upper ninf).table s.b.length s.a.length
   if loc then
@@ -224,6 +280,12 @@ def bandedAffScoreSetup (loc : Bool) (go ge minScore : Int) (s : BandSetup) : In
     match cells with
     | [] => 0
     | c :: r => listMax (max3i c.m c.g1 c.g2) (r.map fun c => max3i c.m c.g1 c.g2)
+
+/-- semi-global: the sentinel model where it can underflow (code as it is), the `none` = −∞ model otherwise;
+local: cells ≤ 0 are never stored, the sentinel cannot accumulate -/
+def bandedAffScoreSetup (loc : Bool) (go ge minScore : Int) (s : BandSetup) : Int :=
+  if !loc && underflowRisk go ge minScore then bandedAffScoreSetupW loc go ge minScore s
+  else bandedAffScoreSetupO loc go ge s
 
 /-- `align_banded(...)[*].score` (all returned alignments carry the same score) -/
 def bandedScore (a b : Seq) (M : Mat) (minScore : Int) (gap : Gap) (loc : Bool) (band : Int × Int) (maxNumber : Int) :
@@ -342,6 +404,15 @@ def growShape (rows cols iMax jMax : Nat) (mts : Option Int) (growF : Nat) : Opt
        | some lim => if ((rows' * (cols * growF) : Nat) : Int) > lim then none else some (rows', cols * growF)
        | none => some (rows', cols * growF))
     else some (rows', cols)
+
+/-- `_extend_table`: a new zero table with one dimension multiplied by `growF`, the old data copied into its
+top-left corner (`dim0 = true`: more rows of `cols` zeros; otherwise every row is padded with zeros) -/
+def extendTable (t : List (List Int)) (dim0 : Bool) (cols growF : Nat) : List (List Int) :=
+  if dim0 then t ++ List.replicate (t.length * growF - t.length) (List.replicate cols 0)
+  else t.map fun row => row ++ List.replicate (row.length * growF - row.length) 0
+
+/-- a table cell as the fill loop reads it: never-written and not-yet-allocated cells are `0` (= invalid) -/
+def tget (t : List (List Int)) (i j : Nat) : Int := ((t[i]?).bind (·[j]?)).getD 0
 
 /-- cells `i = iMin … iMax` of antidiagonal `k`, in order; `acc` = (written cells, min0, max0, maxScore) -/
 def regCellsLin (scoreOnly : Bool) (M : Mat) (g thr : Int) (x y : Seq) (k : Nat) (d1 d2 : List (Nat × Int)) :
@@ -476,6 +547,15 @@ def regionAlign (scoreOnly : Bool) (M : Mat) (gap : Gap) (thr : Int) (x y : Seq)
   | .lin g => regionLin scoreOnly M g thr x y mts initSize initOff growF
   | .aff go ge => regionAff scoreOnly M go ge thr x y mts initSize initOff growF
 
+/-- `total_score = upstream + downstream + seed score`; an exception of the upstream region comes first -/
+def combineRegions (up down : Except Err Int) (c : Int) : Except Err Int :=
+  match up with
+  | .error e => .error e
+  | .ok u =>
+    match down with
+    | .error e => .error e
+    | .ok d => .ok (u + d + c)
+
 /-- `align_local_gapped(...)`: the common score of the returned alignments (`scoreOnly = false`) or the value
 of the `score_only=True` call. -/
 def gappedScore (scoreOnly : Bool) (a b : Seq) (M : Mat) (gap : Gap) (seed : Int × Int) (thr : Int) (dir : XDir)
@@ -492,14 +572,9 @@ def gappedScore (scoreOnly : Bool) (a b : Seq) (M : Mat) (gap : Gap) (seed : Int
     if dirUp dir && decide (si ≠ 0) && decide (sj ≠ 0) then
       regionAlign scoreOnly M gap thr (a.take si).reverse (b.take sj).reverse mts initSize initOff growF
     else .ok 0
-  match up with
-  | .error e => .error e
-  | .ok u =>
-    let down : Except Err Int :=
-      if dirDown dir then regionAlign scoreOnly M gap thr (a.drop (si + 1)) (b.drop (sj + 1)) mts initSize initOff growF
-      else .ok 0
-    match down with
-    | .error e => .error e
-    | .ok d => .ok (u + d + M (a.getD si 0) (b.getD sj 0))
+  let down : Except Err Int :=
+    if dirDown dir then regionAlign scoreOnly M gap thr (a.drop (si + 1)) (b.drop (sj + 1)) mts initSize initOff growF
+    else .ok 0
+  combineRegions up down (M (a.getD si 0) (b.getD sj 0))
 
 end BiotiteModel.C09
